@@ -114,6 +114,20 @@ class _Boom:
         yield ""  # pragma: no cover
 
 
+class _Segs:
+    """A user renderable that yields raw segments (empty ones included) and ends its line."""
+
+    def __init__(self, parts):
+        self.parts = parts
+
+    def __rich_console__(self, console, options):
+        from rich.segment import Segment
+
+        for s, st in self.parts:
+            yield Segment(s, console.get_style(st) if st else None)
+        yield Segment.line()
+
+
 class C15:
     prop = PROP
     level = "exploration"
@@ -168,6 +182,17 @@ class C15:
             parts.append(["\n" + rng.choice(PIECES), rng.choice(STYLES)])
         return parts
 
+    def _gen_segs(self, rng, t, cnt):
+        """Raw segments of a user renderable: some with empty text (an indent of zero width, an
+        empty cell), in front, in the middle or at the end."""
+        cnt[0] += 1
+        parts = [["K%d_%dz" % (t, cnt[0]), rng.choice(STYLES[:8])]]
+        for _ in range(rng.randint(0, 2)):
+            parts.append([rng.choice([" ", ""]) + rng.choice(PIECES[:12]), rng.choice(STYLES[:8])])
+        for _ in range(rng.randint(1, 2)):
+            parts.insert(rng.choice([0, 0, rng.randrange(len(parts) + 1)]), ["", rng.choice(STYLES[:8])])
+        return ["segs", parts]
+
     def _gen_kw(self, rng):
         """Formatting options of print(): they change which characters are written."""
         kw = {}
@@ -205,8 +230,12 @@ class C15:
         if r < 0.78:
             cnt[0] += 1
             return ["out", "K%d_%dz %s" % (t, cnt[0], rng.choice(PIECES)), rng.choice(STYLES)]
-        if r < 0.84:
+        if r < 0.81:
             return ["bell"]
+        if r < 0.83:
+            return self._gen_segs(rng, t, cnt)
+        if r < 0.84:
+            return ["control", rng.choice(["", "", "\x07"])]
         if r < 0.87:
             # a print whose only renderable raises before it yields anything; the program catches
             # the exception and carries on: the failed print contributes nothing, and whatever
@@ -234,8 +263,12 @@ class C15:
         if r < 0.63:
             cnt[0] += 1
             return ["out", "K%d_%dz %s" % (t, cnt[0], rng.choice(PIECES)), rng.choice(STYLES)]
-        if r < 0.68:
+        if r < 0.655:
             return ["bell"]
+        if r < 0.675:
+            return self._gen_segs(rng, t, cnt)
+        if r < 0.68:
+            return ["control", rng.choice(["", "", "\x07"])]
         if r < 0.69:
             return ["failprint", rng.choice(["exc", "base"])]
         if r < 0.71:
@@ -405,6 +438,12 @@ class Prog:
             con.out(op[1], style=op[2] or None)
         elif k == "bell":
             con.bell()
+        elif k == "segs":
+            if con is self.console:
+                self.probes["raw_segment_prints"] = self.probes.get("raw_segment_prints", 0) + 1
+            con.print(_Segs(op[1]))
+        elif k == "control":
+            con.control(op[1])
         elif k == "clear":
             con.clear(op[1])
         elif k == "show_cursor":
@@ -578,7 +617,7 @@ class Prog:
                 self._v("export-html", self._sig_text(body, V, html_=True), "export_html() text = %r but the file shows %r" % (body[:300], V[:300]))
             self._after_export(clear, lambda: con.export_text(clear=False), None)
         else:
-            if k in ("bell", "clear", "show_cursor"):
+            if k in ("bell", "clear", "show_cursor", "control"):
                 self.probes["control_ops"] += 1
             self._emit(con, op)
 
